@@ -102,7 +102,7 @@ def apply_outcome(fn):
     try:
         return '%s errs=%d' % (vs(r), 1 if lc.n else 0), r
     except OutOfUniverse:
-        return 'OUT', r
+        return 'OUT errs=%d' % (1 if lc.n else 0), r
 
 
 def delta_line(t1, t2, base, base2, bidir, always, zip_, thr):
